@@ -103,3 +103,24 @@ add(["h_sampled::n0::", "h_sampled::n1::", "h_sampled::n2::step", "h_sampled::n2
     "symbolic hash/cost; fill_sample with input length <= 2 and every sample size up to len+2", mem=6)
 add(["h_sampled::n2::", "h_sampled::n3::"], ["C20", "C05"], "thorough", 4,
     "SampledLFU<u64>: tracker with <= 3 tracked hashes; one operation; fill_sample input length <= 2", mem=8, tmul=2)
+
+# ---- W-TinyLFU ---------------------------------------------------------------------------------
+WT_STEP = ["C01", "C02", "C03", "C05", "C10", "C12", "C13"]
+
+
+def wt_shapes(caps, pred=lambda x, y, z: True):
+    a, b, c = caps
+    return ["c%d%d%dn%d%d%d" % (a, b, c, x, y, z) for x in range(a + 1) for y in range(b + 1) for z in range(c + 1)
+            if pred(x, y, z)]
+
+
+WT_KINDS = ["put", "get", "peek", "bulk"]
+add(fam("wtlfu", wt_shapes((1, 1, 1)), WT_KINDS) + ["h_wtlfu::c111n000::getest"], WT_STEP, "quick", 3,
+    "WTinyLFUCache<u8,u8>: (window,probationary,protected) = (1,1,1), all 8 occupancies; real TinyLFU in an arbitrary "
+    "state (2 counters/row, 512-bit doorkeeper, 1..=2 probes, symbolic per-key hashes for put and the estimator-effect "
+    "harness); one operation; keys by pattern enumeration", mem=6)
+add(fam("wtlfu", wt_shapes((2, 1, 1)) + wt_shapes((1, 2, 1)) + wt_shapes((1, 1, 2)), ["put", "get", "peek"]) +
+    fam("wtlfu", ["c222n221", "c222n222"], ["put", "peek"]) +
+    ["h_wtlfu::c111n100::getest", "h_wtlfu::c111n010::getest", "h_wtlfu::c111n001::getest"],
+    WT_STEP, "thorough", 3,
+    "WTinyLFUCache<u8,u8>: capacities (2,1,1),(1,2,1),(1,1,2) all occupancies and (2,2,2) with full segments", mem=8, tmul=2)
